@@ -137,3 +137,10 @@ Definition get_key (hf : string -> N) (s : st) (k : gval) (inner : N) : result (
          | Panic => Panic
          end
   end.
+
+(* ---- a user of the ring: kv Store.Del(keys...) (lib/store/kv/store.go:355-374): every key is deleted on the shard
+   the ring answers for THAT key (owner), one key after the other ---- *)
+Definition kv_del1 (owner : N -> nat) (st : nat -> list N) (k : N) : nat -> list N :=
+  fun n => if Nat.eqb n (owner k) then List.remove N.eq_dec k (st n) else st n.
+Definition kv_del (owner : N -> nat) (ks : list N) (st : nat -> list N) : nat -> list N :=
+  fold_left (kv_del1 owner) ks st.
